@@ -76,7 +76,7 @@ claim('C19', 'Coq proof (invariants of the keep-alive state machine over all eve
       'Kernel + vm_compute; translator harness/translate_c19.py (fail-closed ast extractor); integer-second shared clock, no PID reuse, '
       'bounded per-round drift and start-up delay are explicit premises; real time/process liveness is outside the model.',
       'DESIGN.md sec. 3 C19')
-claim('C20', 'Coq proof (layered lookup = cmdline ?? coerce(config) ?? default for every option table meeting a decidable side condition) + side condition decided on the option table the translator regenerates from the source + differential evaluation against jug.options.parse',
+claim('C20', 'Coq proof (layered lookup = cmdline ?? coerce(config) ?? default for every option table meeting a decidable side condition) + side condition decided on the option table the translator regenerates from the source + differential evaluation against jug.options.parse + search on the real `jug <subcommand>` entry point (the string every command hands to backends.select is the same)',
       'Theorems (Props/C20.v): for every option table whose options are all None when absent from the command line, every command line, '
       'configuration file and default layer: lookup k = cmdline k ?? coerce(default k)(config k) ?? default k; the side condition holds for the '
       'table generated from options.py and subcommands/*.py (finite, forallb by vm_compute); the jugfile is argv[0] followed by the extra '
@@ -102,7 +102,7 @@ claim('C04', 'Coq proof (per-primitive refinement of every lock program to an at
       'redis commands and of dict_lock methods, well-formed use of the API (release/fail by the holder or on a failed lock) and a frozen clock '
       '>= 1801 s are explicit premises; harness: lock-step scheduler, os-level interposer, fake redis server.',
       'DESIGN.md sec. 3 C04')
-claim('C05', 'Coq proof (invariant of a file-system model with volatile/durable views over ALL accepted traces, crash points, crash relations and reader interleavings) + trace validation of real file_store runs in coqc + fault enumeration on the real code',
+claim('C05', 'Coq proof (invariant of a file-system model with volatile/durable views over ALL accepted traces, crash points, crash relations and reader interleavings) + trace validation of real file_store runs in coqc + fault enumeration on the real code + a second process acting while a dump is in flight',
       'Theorems (Props/C05.v): for every trace accepted by write_protocol, at every crash point, after a process kill and in every '
       'post-power-loss image each final name is absent or a complete encoding; a reader reads what it opened; the content is the old one '
       'or the renamed temporary; other results are bit-identical; results vanish only by an entitled unlink; a result moved into the pack '
